@@ -250,6 +250,43 @@ def run_impl(case):
             except Exception as ex:  # noqa
                 out[tag]["inter"] = {"err": type(ex).__name__}
         out["moved"] = mv
+        # ---- the same pair expressed in the MAP frame, ego pose = the motion, transform supplied
+        # (corner ranking of the plane distance must still be relative to the ego)
+        try:
+            from perception_eval.common.schema import FrameID
+            from perception_eval.common.transform import HomogeneousMatrix, TransformDict
+            from pyquaternion import Quaternion
+
+            a, b = case["motion"]["rot"]
+            n = math.hypot(a, b)
+            yaw = 2.0 * math.atan2(b / n, a / n)
+            e2m = HomogeneousMatrix(tuple(float(v) for v in case["motion"]["t"]), Quaternion(axis=[0, 0, 1], angle=yaw),
+                                    FrameID.BASE_LINK, FrameID.MAP)
+            td = TransformDict([e2m])
+            em, gm = mk3d(mv["rt"]["est"]), mk3d(mv["rt"]["gt"])
+            em.frame_id = gm.frame_id = FrameID.MAP
+            M = {"cd": om.CenterDistanceMatching, "pd": om.PlaneDistanceMatching, "iou2d": om.IOU2dMatching, "iou3d": om.IOU3dMatching}
+            out["mapframe"] = {kk: float(cls(em, gm, transforms=td).value) for kk, cls in M.items()}
+        except Exception as ex:  # noqa
+            out["mapframe"] = {"err": type(ex).__name__}
+        # ---- objects DERIVED from already-scored ones the way the library derives them (deepcopy, then the
+        # state is replaced: interpolation, frame conversion) must score like freshly built objects
+        try:
+            from copy import deepcopy
+
+            from perception_eval.common.object import ObjectState
+
+            fe, fg = mk3d(mv["rt"]["est"]), mk3d(mv["rt"]["gt"])
+            de, dg = deepcopy(e), deepcopy(g)  # e, g were scored above
+            for d_, f_ in ((de, fe), (dg, fg)):
+                d_.state = ObjectState(f_.state.position, f_.state.orientation, d_.state.shape, d_.state.velocity)
+            out["derived"] = _scores3d(de, dg)
+            de2 = deepcopy(e)
+            de2.state.position = fe.state.position
+            de2.state.orientation = fe.state.orientation
+            out["derived_inplace"] = _scores3d(de2, dg)
+        except Exception as ex:  # noqa
+            out["derived"] = {"err": type(ex).__name__}
         return out
     if k == "roi":
         ra, rb = case["est"], case["gt"]
@@ -413,6 +450,21 @@ def _oracle_box(case, out):
         for tag, m in (("rotation about ego", ro), ("rotation+translation", rt)):
             if not _close(m[k], v):
                 return f"{k} changed under common {tag}: {v!r} -> {m[k]!r}"
+    # ---- the pair in the MAP frame with the ego pose supplied scores like the pair in the ego frame
+    mf = out.get("mapframe", {})
+    if "err" in mf:
+        return f"scoring the pair in the map frame raised {mf['err']}"
+    for k in ("cd", "iou2d", "iou3d"):
+        if k in mf and abs(mf[k] - b[k]) > 1e-6 * max(1.0, abs(b[k])):
+            return f"{k} differs between the ego-frame pair ({b[k]!r}) and the same pair in the map frame with the ego pose supplied ({mf[k]!r})"
+    # ---- derived objects (deepcopy of a scored object, state replaced) score like fresh ones
+    for tag in ("derived", "derived_inplace"):
+        dv = out.get(tag, {})
+        if "err" in dv:
+            return f"scoring a derived object raised {dv['err']}"
+        for k in ("cd", "pd", "iou2d", "iou3d"):
+            if k in dv and _num(dv[k]) and _num(rt[k]) and not _close(dv[k], rt[k]):
+                return f"{k} of objects derived from scored ones by deepcopy + new state is {dv[k]!r}, freshly built objects give {rt[k]!r}"
     if separated(P, Q) and (abs(b["iou2d"]) > TOL or abs(b["iou3d"]) > TOL):
         return f"disjoint footprints but iou2d={b['iou2d']!r}, iou3d={b['iou3d']!r}"
     if h == 0 and abs(b["iou3d"]) > TOL:
@@ -435,6 +487,8 @@ def _oracle_box(case, out):
             return f"plane distance {b['pd']!r} != RMS corner distance over the GT's nearest side {ref!r} (corners {i},{j})"
         if not _close(ro["pd"], b["pd"]):
             return f"plane distance changed under common rotation about ego: {b['pd']!r} -> {ro['pd']!r}"
+        if "pd" in mf and abs(mf["pd"] - b["pd"]) > 1e-6 * max(1.0, abs(b["pd"])):
+            return f"plane distance differs between the ego-frame pair ({b['pd']!r}) and the same pair in the map frame with the ego pose supplied ({mf['pd']!r})"
     return None
 
 
